@@ -700,10 +700,10 @@ Section Modulo.
         destruct T2 as (_ & _ & C2').
         apply shrink_refines; auto.
         * (* swf of the set-level insert *)
-          destruct S2 as (U0 & U1 & U2). unfold s_insert_impl. destruct x as [|p|p].
-          -- destruct (s_zero a2) eqn:Z; [split; auto|]. unfold swf; simpl. split; [exact U0|split; [exact U1|]].
-             rewrite U2, Z. simpl. lia.
-          -- destruct (PS.mem p (s_elems a2)) eqn:Mm; [split; auto|]. unfold swf; simpl. split; [exact U0|]. split.
+          pose proof S2 as (U0 & U1 & U2). unfold s_insert_impl. destruct x as [|p|p].
+          -- destruct (s_zero a2) eqn:Z; [exact S2|]. unfold swf; simpl. split; [exact U0|split; [exact U1|]].
+             rewrite U2. simpl. lia.
+          -- destruct (PS.mem p (s_elems a2)) eqn:Mm; [exact S2|]. unfold swf; simpl. split; [exact U0|]. split.
              ++ intros q I. apply PS.add_spec in I. destruct I as [->|I]; [|apply U1; exact I].
                 split; [unfold goodp; rewrite As2; exact G | destruct (Ord (Zpos p) (or_introl eq_refl)); lia].
              ++ rewrite card_add, U2; [lia|]. intros I. apply PS.mem_spec in I. congruence.
@@ -712,3 +712,94 @@ Section Modulo.
       + split; [exact T2|split; [exact R2|split; [exact S2|exact K2]]].
   Qed.
 End Modulo.
+
+(* ---------- merge trees of the real table operations ---------- *)
+Fixpoint t_eval (t : tree tsk) : tsk :=
+  match t with Leaf a => a | Node l r => t_merge true (t_eval l) (t_eval r) end.
+Fixpoint tmap_abs (t : tree tsk) : tree sk :=
+  match t with Leaf a => Leaf (t_abs a) | Node l r => Node (tmap_abs l) (tmap_abs r) end.
+Lemma leaves_tmap_abs t : leaves (tmap_abs t) = map t_abs (leaves t).
+Proof. induction t; simpl; [reflexivity | rewrite map_app; congruence]. Qed.
+
+Lemma tinv_wfs A : tinv A -> wfs M0 (t_abs A) /\ swf (t_abs A).
+Proof.
+  intros (W & P & C). pose proof (absR_t_abs A W) as (As & Ae & Az & Ac). destruct consts_ok as (CM & C2 & C1).
+  assert (E : forall p, PS.In p (s_elems (t_abs A)) -> goodp (s_skip (t_abs A)) p = true /\ Zpos p < 2 ^ 32).
+  { intros p I. apply Ae in I. destruct I as (i & Hi & Ci & Np).
+    destruct (w_vals A W i ltac:(rewrite Ci; exact Np)) as [Pv G]. rewrite Ci in *. unfold goodp. rewrite As. split; [exact G|lia]. }
+  assert (K : s_cnt (t_abs A) = card (s_elems (t_abs A)) + b2z (s_zero (t_abs A))).
+  { rewrite Ac, Az, (w_cnt A W), (occ_card A _ W Ae). reflexivity. }
+  pose proof (w_skip A W). pose proof (w_sd A W).
+  assert (2 ^ (t_sd A - 1) <= 2 ^ (uniques_max_size_degree - 1)) by (apply Z.pow_le_mono_r; lia).
+  split.
+  - split; [rewrite As; lia|]. split; [exact E|]. split; [exact K|]. rewrite Ac. lia.
+  - split; [rewrite As; lia|]. split; [exact E|exact K].
+Qed.
+
+Lemma tree_refines : rehash_ok -> resize_ok -> forall t, Forall tinv (leaves t) ->
+  tinv (t_eval t) /\ exists s, evals M0 (tmap_abs t) s /\ absR (t_eval t) s /\ swf s.
+Proof.
+  intros Hr Hz. induction t as [a | l IHl r IHr]; simpl; intros F.
+  - inversion F; subst. split; [assumption|]. exists (t_abs a). split; [constructor|].
+    destruct H1 as (W & _). split; [apply absR_t_abs; exact W|]. apply tinv_wfs. inversion F; assumption.
+  - apply Forall_app in F. destruct F as [Fl Fr].
+    destruct (IHl Fl) as (Tl & sl & El & Rl & Sl). destruct (IHr Fr) as (Tr & sr & Er & Rr & Sr).
+    destruct (merge_refines Hr Hz _ _ _ _ Tl Tr Rl Rr Sl Sr) as (T & R & S & _).
+    split; [exact T|]. exists (merge_sk M0 true sl sr (t_order (t_eval r))). split; [|split; [exact R|exact S]].
+    apply ev_node; auto.
+    destruct Tr as (Wr & _). destruct Rr as (_ & Ae & _).
+    intros x. rewrite t_order_spec; [|apply Wr|pose proof (w_sd _ Wr); lia]. split.
+    + intros (i & Hi & Ci & Nx). destruct (w_vals _ Wr i ltac:(rewrite Ci; exact Nx)) as [Pv _]. rewrite Ci in Pv.
+      destruct x as [|p|p]; try lia. exists p. split; [reflexivity|]. apply Ae. exists i. auto.
+    + intros (p & -> & I). apply Ae. exact I.
+Qed.
+
+(* any two merge trees of the table-level Merge over permutations of the same tables report the same
+   skip degree, itemsCount, zero flag and Size(true) -- modulo rehash_ok and resize_ok *)
+Theorem table_merge_tree_perm : rehash_ok -> resize_ok -> forall t1 t2,
+  Forall tinv (leaves t1) -> Permutation (leaves t1) (leaves t2) ->
+  t_skip (t_eval t1) = t_skip (t_eval t2) /\ t_cnt (t_eval t1) = t_cnt (t_eval t2) /\
+  t_zero (t_eval t1) = t_zero (t_eval t2) /\ (forall y, holds (t_eval t1) y <-> holds (t_eval t2) y) /\
+  t_size_as_is (t_eval t1) = t_size_as_is (t_eval t2) /\ tinv (t_eval t1) /\ tinv (t_eval t2).
+Proof.
+  intros Hr Hz t1 t2 F P.
+  assert (F2 : Forall tinv (leaves t2)) by (eapply Permutation_Forall; eauto).
+  destruct (tree_refines Hr Hz t1 F) as (T1 & s1 & E1 & (A1 & B1 & C1 & D1) & _).
+  destruct (tree_refines Hr Hz t2 F2) as (T2 & s2 & E2 & (A2 & B2 & C2 & D2) & _).
+  destruct consts_ok as (_ & _ & HM).
+  destruct (unique_merge_tree_perm M0 (tmap_abs t1) (tmap_abs t2) s1 s2 HM) as (Sk & El & Zr & Cn & _); auto.
+  - rewrite leaves_tmap_abs. apply Forall_forall. intros a I. apply in_map_iff in I. destruct I as (A & <- & IA).
+    apply tinv_wfs. rewrite Forall_forall in F. apply F. exact IA.
+  - rewrite !leaves_tmap_abs. apply Permutation_map. exact P.
+  - assert (Ek : t_skip (t_eval t1) = t_skip (t_eval t2)) by congruence.
+    assert (Ec : t_cnt (t_eval t1) = t_cnt (t_eval t2)) by congruence.
+    split; [exact Ek|]. split; [exact Ec|]. split; [congruence|]. split; [|split; [|split; assumption]].
+    + intros y. split; intros (i & Hi & Ci & Ny).
+      * destruct T1 as (W1 & _). destruct (w_vals _ W1 i ltac:(rewrite Ci; exact Ny)) as [Pv _]. rewrite Ci in Pv.
+        destruct y as [|p|p]; try lia. apply B2. apply El. apply B1. exists i. auto.
+      * destruct T2 as (W2 & _). destruct (w_vals _ W2 i ltac:(rewrite Ci; exact Ny)) as [Pv _]. rewrite Ci in Pv.
+        destruct y as [|p|p]; try lia. apply B1. apply El. apply B2. exists i. auto.
+    + unfold t_size_as_is. rewrite Ek, Ec. reflexivity.
+Qed.
+
+(* ---------- non-vacuity: the empty table after Reset satisfies the invariant ---------- *)
+Lemma tinv_reset : tinv (t_reset tsk_nil).
+Proof.
+  assert (C : forall i, cell (t_reset tsk_nil) i = 0).
+  { intros i. unfold cell, t_reset, bget. cbn [t_buf]. rewrite PM.gempty. reflexivity. }
+  assert (O : occ (t_reset tsk_nil) = 0).
+  { unfold occ. assert (G : forall l, filter (occf (t_reset tsk_nil)) l = []).
+    { induction l as [|x l IH]; cbn [filter]; [reflexivity|]. unfold occf at 1. rewrite C. cbn. exact IH. }
+    rewrite G. reflexivity. }
+  split; [|split].
+  - constructor.
+    + reflexivity.
+    + cbn [t_sd t_reset]. vm_compute. split; congruence.
+    + cbn [t_skip t_reset]. lia.
+    + intros i _. apply C.
+    + intros i N. rewrite C in N. congruence.
+    + intros i j _ _ N. rewrite C in N. congruence.
+    + rewrite O. reflexivity.
+  - intros i _ N. rewrite C in N. congruence.
+  - cbn [t_cnt t_sd t_reset]. vm_compute. congruence.
+Qed.
